@@ -221,17 +221,33 @@ def install(spec: Spec):
     spec.define('all_results_terminal', ['e'], ALL_TERMINAL.replace('self.', 'e.'))
     spec.define('children_completed', ['e'], "forall(lambda i: implies(0 <= i and i < len(e.event_children), e.event_children[i].event_status == 'completed'))")
 
-    spec.fn('BaseEvent.event_are_all_children_complete', file=M, qual='BaseEvent.event_are_all_children_complete', trusted=True, allocates=False,
-            params={'self': 'BaseEvent'}, returns='bool',
-            ensures=[('true_only_if_children_completed', 'implies(result, children_completed(self))', ['C03'])],
-            notes='recursive descent over event_children with a visited set; contract (one level: every direct child has status completed; '
-                  'descendants by the same contract at the recursive call) assumed, body not verified')
+    # the visited set is shared by reference down the recursion (a PySet object); OLDV(k) = k was visited before this activation
+    OLDV = lambda k: "(old(_visited) is not None and " + k + " in old(old(_visited).set_members))"
+    NOWV = "(self.event_id if False else None)"
+    NEWLY_CHECKED = ("forall(lambda e: implies(result and visited_now(e.event_id) and not " + OLDV('e.event_id') + ", children_completed(e)), 'BaseEvent')")
+    spec.fn('BaseEvent.event_are_all_children_complete', file=M, qual='BaseEvent.event_are_all_children_complete',
+            params={'self': 'BaseEvent', '_visited': 'opt[PySet]'}, returns='bool', locals={'_visited': 'PySet'},
+            assumes=[('P6_event_ids_identify_events', "forall(lambda a, b: implies(a.event_id == b.event_id, a is b), 'BaseEvent', 'BaseEvent')", [])],
+            modifies=[('set_members', '*')],
+            loops={0: {'inv': [('children_so_far_completed', "forall(lambda j: implies(0 <= j and j < loop_i, loop_seq[j].event_status == 'completed'))", ['C03']),
+                               ('visited_only_grows', "forall(lambda k: implies(loop_old(k in _visited.set_members), k in _visited.set_members), 'str')", ['C03']),
+                               ('everything_newly_visited_was_checked', "forall(lambda e: implies(e.event_id in _visited.set_members and not " + OLDV('e.event_id') + " and e is not self, children_completed(e)), 'BaseEvent')", ['C03']),
+                               ('children_so_far_marked', "forall(lambda j: implies(0 <= j and j < loop_i, loop_seq[j].event_id in _visited.set_members))", ['C03']),
+                               ('self_is_marked', 'self.event_id in _visited.set_members', ['C03'])]}},
+            ensures=[('visited_only_grows', "implies(_visited is not None, forall(lambda k: implies(k in old(_visited.set_members), k in _visited.set_members), 'str'))", ['C03']),
+                     ('self_is_marked', "implies(_visited is not None, self.event_id in _visited.set_members)", ['C03']),
+                     ('everything_newly_visited_was_checked', "implies(_visited is not None and result, forall(lambda e: implies(e.event_id in _visited.set_members and not "
+                      + OLDV('e.event_id') + ", children_completed(e)), 'BaseEvent'))", ['C03']),
+                     ('true_only_if_children_completed', 'implies(result and not ' + OLDV('self.event_id') + ', children_completed(self))', ['C03']),
+                     ('true_only_if_descendants_were_checked', "implies(result and not " + OLDV('self.event_id') + ", forall(lambda i: implies(0 <= i and i < len(self.event_children), "
+                      + OLDV('self.event_children[i].event_id') + " or children_completed(self.event_children[i]))))", ['C03'])],
+            notes='')
     spec.methods[('BaseEvent', 'event_are_all_children_complete')] = 'BaseEvent.event_are_all_children_complete'
 
     spec.fn('BaseEvent.event_mark_complete_if_all_handlers_completed', file=M, qual='BaseEvent.event_mark_complete_if_all_handlers_completed',
             params={'self': 'BaseEvent'}, returns='NoneType',
             requires=[('in_loop', 'loop_running()', [])],
-            modifies=[('_event_completed_signal', 'self'), ('ev_set', '*'), ('event_processed_at', 'self')],
+            modifies=[('_event_completed_signal', 'self'), ('ev_set', '*'), ('event_processed_at', 'self'), ('set_members', '*')],
             ensures=[('signals_only_when_handlers_done', 'implies(signalled(self) and not old(signalled(self)), old(all_results_terminal(self)))', ['C03']),
                      ('signals_only_when_children_done', 'implies(signalled(self) and not old(signalled(self)), old(children_completed(self)))', ['C03']),
                      ('never_unsignals', 'implies(old(signalled(self)), signalled(self) and self.event_processed_at is old(self.event_processed_at))', ['C08']),
@@ -323,7 +339,7 @@ def install_late(spec: Spec):
                       ('all_buses_serial', "forall(lambda b: not b.parallel_handlers, 'EventBus')", []),
                       ('nothing_in_hand', 'inhand == 0', [])],
             modifies=[('_event_completed_signal', '*'), ('ev_set', '*'), ('q_items', '*'), ('q_unfinished', '*'), ('event_results', '*'), ('status', '*'), ('result', '*'), ('error', '*'),
-                      ('started_at', '*'), ('completed_at', '*'), ('_handler_completed_signal', '*'), ('event_processed_at', '*'), ('event_history', '*'), ('task_done', '*'), ('task_cancel_requested', '*')],
+                      ('started_at', '*'), ('completed_at', '*'), ('_handler_completed_signal', '*'), ('event_processed_at', '*'), ('set_members', '*'), ('event_history', '*'), ('task_done', '*'), ('task_cancel_requested', '*')],
             ghost_modifies=['inhand', 'inhand_q', 'dequeued', 'processed', 'task_done_calls', 'invoked', 'eh_calls', 'wal_calls', 'wal_lines', 'wal_opens', 'cancel_walk_calls'],
             callsites={'bus.event_queue.get_nowait': {'model': aw_get_post_model, 'writes': ['q_items'], 'ghost_writes': ['inhand', 'inhand_q', 'dequeued']},
                        'bus.process_event': {'pre': aw_process_pre},
